@@ -301,12 +301,21 @@ impl<H: DnsHandle> DnssecDnsHandle<H> {
         // in the answer section) and was not expanded from a wildcard asserts no non-existence:
         // NSEC/NSEC3 records a server attaches to it all the same (e.g. the NSEC3 matching the query
         // name) must not be evaluated as a denial of the very RRset that is being returned.
+        //
+        // The same holds for a CNAME at the query name, unless the response also carries a negative
+        // part for the end of the alias chain: a NODATA/NXDOMAIN conclusion always comes with the
+        // zone's SOA in the authority section (RFC 2308), and then the denial is evaluated as before.
+        let has_soa = message
+            .authorities
+            .iter()
+            .any(|rr| rr.record_type() == RecordType::SOA);
         if !must_validate_nsec
             && message.response_code == ResponseCode::NoError
-            && message
-                .answers
-                .iter()
-                .any(|rr| rr.name == query.name && rr.record_type() == query.query_type)
+            && message.answers.iter().any(|rr| {
+                rr.name == query.name
+                    && (rr.record_type() == query.query_type
+                        || (rr.record_type() == RecordType::CNAME && !has_soa))
+            })
         {
             return Ok(message);
         }
